@@ -348,7 +348,14 @@ class AsyncFIXConnection:
                             continue
                         break
 
-                    await self._process_message(decoded_msg, raw_msg)
+                    try:
+                        await self._process_message(decoded_msg, raw_msg)
+                    except (asyncio.CancelledError, OSError):
+                        raise
+                    except Exception:
+                        # one indigestible message (i.e. garbled MsgSeqNum) must not keep
+                        #   already received messages behind it waiting in the buffer
+                        self.log.exception("socket_read_task: message skipped")
             except asyncio.CancelledError:
                 return
             except OSError as why:
